@@ -61,6 +61,7 @@ type wd struct {
 	gasOf    map[string]uint64 // "chain/valsetID" -> estimate used (so that a re-published valset message is identical)
 	history  []string
 	failed   bool
+	nextDt   time.Duration // block time step of the next block (0 = the default 2 s)
 }
 
 type usedTx struct {
@@ -71,6 +72,9 @@ type usedTx struct {
 	Signers []int  // validators (indices) whose signatures the tx carries, in signing order
 	Valset  uint64 // update_valset: snapshot id the message was about
 	Gas     uint64
+	PA      uint64         // valset id the relayer named (the consensus valset of the call)
+	Relayer *chain.Account // who relayed it (the relayer address is part of the call data)
+	Height  int64          // block in which the chain accepted it
 }
 
 func (w *wd) note(f string, a ...any) {
@@ -92,7 +96,13 @@ func (w *wd) block(what string) *chain.BlockResult {
 	}
 	w.rec.Op(map[string]any{"op": "block", "height": w.c.Height + 1, "what": what, "txs": w.c.PendingCount()})
 	w.c.Log.Drain() // lines of direct keeper / governance calls between blocks do not belong to the block
-	br := w.c.NextBlock()
+	var br *chain.BlockResult
+	if w.nextDt > 0 {
+		br = w.c.NextBlockAfter(w.nextDt)
+		w.nextDt = 0
+	} else {
+		br = w.c.NextBlock()
+	}
 	if br.Panic != "" || br.Err != nil {
 		w.fail("FinalizeBlock failed during %s: %v %.400s", what, br.Err, br.Panic)
 		return br
